@@ -2,14 +2,13 @@
    runtime-call trees: shuttle-engine/src/thread_support.rs, shuttle-std/src/thread.rs,
    shuttle-std/src/sync/atomic/mod.rs.  No proofs in this file. *)
 From Coq Require Import List NArith Bool Arith.
-From SV Require Import Clock.VClock Prim.Objects Prim.Atomic Engine.Exec Lang.Code.
+From SV Require Import Clock.VClock Prim.Objects Prim.Atomic Prim.Tls Engine.Exec Lang.Code.
 Import ListNotations.
 
 (* ---- thread_fn epilogue (shuttle-engine/src/thread_support.rs) ---- *)
-Definition thread_epilogue : code :=
-  atomic_b (fun e s => match exit_truncates e with Some b => Some (e, s, b) | None => None end)
-    (fun b => switch_if b
-      (atomic_u (fun e s =>
+(* the last block of thread_fn: the result is published and the joiner, if any, unblocked *)
+Definition publish_code : code :=
+  atomic_u (fun e s =>
          match me e with
          | None => None
          | Some t =>
@@ -18,7 +17,58 @@ Definition thread_epilogue : code :=
            | Some (e', None) => Some (e', s)
            | Some (e', Some w) => match e_unblock e' w with Some e'' => Some (e'', s) | None => None end
            end
-         end) Ret)).
+         end) Ret.
+
+Definition TAG_TLSDROP : N := 39.
+
+(* `while let Some(local) = pop_local() { drop(local) }`: every value is dropped outside the state borrow; its
+   destructor logs the value and runs the key's body (`dtor d k` = the code of body d followed by k).  A destructor
+   may initialise further slots, which are popped by later rounds.  `n` bounds the rounds; running out of it is
+   the model's error value (Panic), excluded by tls_rounds_bound (Proofs/TlsProofs.v). *)
+Fixpoint tls_loop (n : nat) (tls : nat) (dtor : nat -> code -> code) (k : code) : code :=
+  match n with
+  | O => Panic
+  | S n' =>
+    Atomic (fun e s => match me e with
+                       | Some m => match tls_pop s tls m with
+                                   | Some (s', Some (key, v, d)) =>
+                                     Some (e, s', [1; N.of_nat key; v; match d with Some b => N.of_nat (S b) | None => 0 end]%N)
+                                   | Some (_, None) => Some (e, s, [0%N])
+                                   | None => None end
+                       | None => None end)
+      (fun a => match a with
+                | [1; key; v; d]%N =>
+                  Log TAG_TLSDROP [key; v]
+                    (match N.to_nat d with
+                     | O => tls_loop n' tls dtor k
+                     | S b => dtor b (tls_loop n' tls dtor k)
+                     end)
+                | _ => k
+                end)
+  end.
+Definition TLS_ROUNDS : nat := 24.
+
+(* thread_fn after the closure returned: the exit scheduling point (when `switch_before_exit`), the thread-local
+   destructors, the publication of the result *)
+Definition thread_epilogue_d (tls : nat) (dtor : nat -> code -> code) : code :=
+  atomic_b (fun e s => match exit_truncates e with Some b => Some (e, s, b) | None => None end)
+    (fun b => switch_if b (tls_loop TLS_ROUNDS tls dtor publish_code)).
+
+(* a scoped thread (Scope::spawn): the wrapper closure has its own exit scheduling point, then marks the thread
+   finished, and the last one unblocks the scope's main task if that task is waiting at the end of scope();
+   thread_fn then runs with switch_before_exit = false *)
+Definition scoped_epilogue_d (z tls : nat) (dtor : nat -> code -> code) : code :=
+  atomic_b (fun e s => match exit_truncates e with Some b => Some (e, s, b) | None => None end)
+    (fun b => switch_if b
+      (atomic_u (fun e s =>
+                   match scope_get s z with
+                   | Some (S r, m, w) =>
+                     let s' := set_obj s z (OScope r m w) in
+                     if Nat.eqb r 0 && w
+                     then match e_unblock e m with Some e' => Some (e', s') | None => None end
+                     else Some (e, s')
+                   | _ => None end)
+         (tls_loop TLS_ROUNDS tls dtor publish_code))).
 
 (* ---- JoinHandle::join (shuttle-std/src/thread.rs) ---- *)
 Definition join_code (target : nat) (k : code) : code :=
@@ -36,9 +86,12 @@ Definition join_code (target : nat) (k : code) : code :=
           end)
         (fun should_block => switch_if should_block
           (atomic_u (fun e s =>
-              match me e, e_clock e target with
-              | Some m, Some c => match e_update_clock e m c with Some e' => Some (e', s) | None => None end
-              | _, _ => None
+              match me e, e_clock e target, get_task e target with
+              | Some m, Some c, Some tk =>
+                if is_finished tk        (* `.expect("target should have finished")` *)
+                then match e_update_clock e m c with Some e' => Some (e', s) | None => None end
+                else None
+              | _, _, _ => None
               end) k)))).
 
 (* ---- yield_now, park, unpark ---- *)
